@@ -42,6 +42,7 @@ def insert_into(
     parent: Optional["Node"],
     open_start: int = 0,
     open_end: int = 0,
+    closed: Optional["Node"] = None,
 ) -> Fragment | None:
     a = content.find_index(dist)
     index, offset = a["index"], a["offset"]
@@ -49,20 +50,26 @@ def insert_into(
     if offset == dist or cast("Node", child).is_text:
         if parent and not parent.can_replace(index, index, insert):
             return None
-        return content.cut(0, dist).append(insert).append(content.cut(dist))
+        result = content.cut(0, dist).append(insert).append(content.cut(dist))
+        # `closed` is a node of the slice that is copied into the document as it is
+        # (not on an open side): nothing else validates its new content.  Checked on
+        # the result, so that text merging at the seams is taken into account.
+        if closed is not None and not closed.type.valid_content(result):
+            return None
+        return result
     assert child
     # A node on an open side of the slice is completed (and validated) by the
-    # replace that joins it onto the document; a closed node is copied into the
-    # document as is, so what is inserted into it has to be checked here.
+    # replace that joins it onto the document.
     at_start = index == 0 and open_start > 0
     at_end = index == content.child_count - 1 and open_end > 0
     inner = insert_into(
         child.content,
         dist - offset - 1,
         insert,
-        None if at_start or at_end else child,
+        None,
         open_start - 1 if at_start else 0,
         open_end - 1 if at_end else 0,
+        None if at_start or at_end else child,
     )
     if inner:
         return content.replace_child(index, child.copy(inner))
